@@ -68,8 +68,11 @@ func NewSnippet(b []byte, opts ...SnippetOption) *Snippet {
 	linesHighlighted := strings.Split(buf.String(), "\n")
 
 	// Work out the start and end lines of the snippet
-	snippet.start = max(snippet.line-snippet.padding, 1)
-	snippet.end = min(snippet.line+snippet.padding, len(linesRaw)-1)
+	// The requested line may lie beyond the lines found by splitting on "\n"
+	// (for example when the file uses other line terminators), so both ends
+	// are clamped to the lines we actually have.
+	snippet.end = max(min(snippet.line+snippet.padding, len(linesRaw)-1, len(linesHighlighted)), 0)
+	snippet.start = min(max(snippet.line-snippet.padding, 1), snippet.end+1)
 	snippet.linesRaw = linesRaw[snippet.start-1 : snippet.end]
 	snippet.linesHighlighted = linesHighlighted[snippet.start-1 : snippet.end]
 
